@@ -316,6 +316,7 @@ impl Check for PairFeeLedger {
                     }
                 }
             }
+            pw.ledger_query_matrix().map_err(|e| Fail::new(format!("step {step}: {e}")))?;
             let at = pw.all_time(false).map_err(|e| Fail::new(e))?;
             let bu = pw.all_time(true).map_err(|e| Fail::new(e))?;
             check_ledger(&l, &before, &at, &bu, &format!("step {step} ({op:?})"))?;
@@ -559,6 +560,7 @@ impl Check for TrioFeeLedger {
                     }
                 }
             }
+            tw.ledger_query_matrix().map_err(|e| Fail::new(format!("step {step}: {e}")))?;
             let at = tw.all_time(false).map_err(|e| Fail::new(e))?;
             let bu = tw.all_time(true).map_err(|e| Fail::new(e))?;
             check_ledger(&l, &before, &at, &bu, &format!("step {step} ({op:?})"))?;
